@@ -17,7 +17,8 @@ namespace Admit
 
 open Nodes Spec
 open Unsync.Admit (shortestPre shortestPre_zero shortestPre_cons_pos shortestPre_nil_pos
-  shortestPrefix_eq sameKeys_iff nodup_map_of_inj find?_key_of_nodup)
+  shortestPrefix_eq sameKeys_iff nodup_map_of_inj find?_key_of_nodup shortestPre_eq_some_iff
+  IsShortestPre)
 
 /-! ### the loop of `Inner::sync` runs its body once -/
 
@@ -1315,6 +1316,348 @@ theorem removeVictims_prefix {p : Params} (hd7 : p.q.d7 = false) :
       rw [r6 j (fun n hnv => hj n (List.mem_cons_of_mem _ hnv))]
       rw [x4 j (by rw [hei]; exact fun e' => hj v List.mem_cons_self e'.symm)]
       rfl
+
+/-! ### the admission of a new key that finds no room -/
+
+theorem handleAdmit_exact (p : Params) (s : SState) (key : Nat) (hash : UInt64) (ve : VE)
+    (w : Nat) :
+    (handleAdmit p s key hash ve w).map = s.map ∧
+    (handleAdmit p s key hash ve w).prob = s.prob ++
+      [{ id := s.nextId, key := key, hash := hash, info := ve.info, kobj := ve.slot }] ∧
+    (handleAdmit p s key hash ve w).cws = s.cws + w := by
+  unfold handleAdmit
+  dsimp only
+  split <;> split <;> exact ⟨rfl, rfl, rfl⟩
+
+theorem moveSkipped_nil (s : SState) : moveSkipped [] s = s := rfl
+
+/-- `admit` and its consequences in a state all of whose nodes are current: the closed
+formula decides; on admission the shortest sufficient prefix leaves and the candidate's node
+goes to the back; on rejection only the candidate leaves the map. -/
+theorem admitOrReject_cand {p : Params} (hd7 : p.q.d7 = false) {s : SState} {k : Nat}
+    {hash : UInt64} {ve : VE} {w : Nat} (hs : Safe s) (hkn : (AL.keys s.map).Nodup)
+    (hcand : AL.get? s.map k = some ve) (hcur : AllCur s s.prob) :
+    (∀ n, shortestPre w (probWeights s) = some n →
+      s.sk.frequency hash > ((probFreqs s).take n).sum →
+      (admitOrReject p s k hash ve w).map = eraseKeys s.map ((s.prob.take n).map (·.key)) ∧
+      (∃ node : AoNode, node.key = k ∧ node.info = ve.info ∧
+        (admitOrReject p s k hash ve w).prob = s.prob.drop n ++ [node]) ∧
+      (admitOrReject p s k hash ve w).cws = s.cws - ((probWeights s).take n).sum + w) ∧
+    ((¬ ∃ n, shortestPre w (probWeights s) = some n ∧
+        s.sk.frequency hash > ((probFreqs s).take n).sum) →
+      (admitOrReject p s k hash ve w).map = AL.erase s.map k ∧
+      (admitOrReject p s k hash ve w).prob = s.prob ∧
+      (admitOrReject p s k hash ve w).cws = s.cws ∧
+      Sub s (admitOrReject p s k hash ve w)) := by
+  obtain ⟨c0, c1, c2⟩ := admitLoop_closed (p := p) hd7 (s := s) (cw := w)
+    (cf := s.sk.frequency hash) hcur
+  refine ⟨?_, ?_⟩
+  · intro n hn1 hn2
+    obtain ⟨hvic, _⟩ := c2 n hn1 hn2
+    unfold admitOrReject
+    dsimp only
+    rw [if_pos (c1.mpr ⟨n, hn1, hn2⟩), hvic, c0]
+    have hcurv : AllCur s (s.prob.take n) := fun m hm => hcur m (List.mem_of_mem_take hm)
+    obtain ⟨r1, r2, r3, _, r5, _⟩ := removeVictims_prefix hd7 (s.prob.take n) s (s.prob.drop n) []
+      hs (List.take_append_drop n s.prob).symm hcurv hkn
+    generalize removeVictims p (s.prob.take n) s [] = r at r1 r2 r3 r5 ⊢
+    obtain ⟨s2, sk2⟩ := r
+    dsimp only at r1 r2 r3 r5 ⊢
+    subst r1
+    rw [moveSkipped_nil]
+    obtain ⟨a1, a2, a3⟩ := handleAdmit_exact p s2 k hash ve w
+    refine ⟨by rw [a1, r3], ⟨_, rfl, rfl, by rw [a2, r2]⟩, ?_⟩
+    rw [a3, r5]
+    have : (s.prob.take n).map (fun n => (getInfo s n.info).weight) = (probWeights s).take n := by
+      unfold probWeights; rw [List.map_take]
+    rw [this]
+  · intro hno
+    unfold admitOrReject
+    dsimp only
+    rw [if_neg (fun h => hno (c1.mp h)), c0, moveSkipped_nil]
+    have : removeCandidate p s k ve = { s with map := AL.erase s.map k } := by
+      unfold removeCandidate
+      rw [hcand]
+      dsimp only
+      rw [hd7, Bool.false_or, beq_self_eq_true, if_pos rfl]
+    rw [this]
+    exact ⟨rfl, rfl, rfl, sub_of_eq rfl rfl⟩
+
+/-- `handle_upsert` for the queued insert of a key that is new, not admitted yet, not
+oversized and finds no room, in a state all of whose nodes are current. -/
+theorem handleUpsert_cand {p : Params} (hq : NoQuirks p) {cap : Nat} (hcap : p.cap = some cap)
+    {s : SState} {k v : Nat} {ve : VE} (oldW w0 : Nat) (hs : Safe s)
+    (hkn : (AL.keys s.map).Nodup) (hcand : AL.get? s.map k = some ve) (hval : ve.val = v)
+    (hna : (getInfo s ve.info).admitted = false) (hcur : AllCur s s.prob)
+    (hroom : s.cws + p.weigh k v > cap) (hfit : p.weigh k v ≤ cap) :
+    (∀ n, shortestPre (p.weigh k v) (probWeights s) = some n →
+      s.sk.frequency (p.hash k) > ((probFreqs s).take n).sum →
+      (handleUpsert p s k (p.hash k) ve oldW w0).map =
+        eraseKeys s.map ((s.prob.take n).map (·.key)) ∧
+      (∃ node : AoNode, node.key = k ∧ node.info = ve.info ∧
+        (handleUpsert p s k (p.hash k) ve oldW w0).prob = s.prob.drop n ++ [node]) ∧
+      (handleUpsert p s k (p.hash k) ve oldW w0).cws =
+        s.cws - ((probWeights s).take n).sum + p.weigh k v) ∧
+    ((¬ ∃ n, shortestPre (p.weigh k v) (probWeights s) = some n ∧
+        s.sk.frequency (p.hash k) > ((probFreqs s).take n).sum) →
+      (handleUpsert p s k (p.hash k) ve oldW w0).map = AL.erase s.map k ∧
+      (handleUpsert p s k (p.hash k) ve oldW w0).prob = s.prob ∧
+      (handleUpsert p s k (p.hash k) ve oldW w0).cws = s.cws ∧
+      Sub s (handleUpsert p s k (p.hash k) ve oldW w0)) := by
+  have hd7 : p.q.d7 = false := by rw [hq]
+  have hd10 : p.q.d10 = false := by rw [hq]
+  have hcw : currentWeight p s k ve w0 = p.weigh k v := by
+    unfold currentWeight
+    rw [hd10, hcand]
+    simp only [Bool.false_eq_true, if_false, beq_self_eq_true, if_true, hval]
+  unfold handleUpsert
+  dsimp only
+  rw [hcw]
+  generalize hs1 : withInfo s ve.info (fun i => { i with dirty := false }) = s1
+  have hg : ∀ j, getInfo s1 j =
+      if ve.info = j then { getInfo s ve.info with dirty := false } else getInfo s j := by
+    intro j; rw [← hs1]; exact getInfo_withInfo _ _ _ _
+  have hgw : ∀ j, (getInfo s1 j).weight = (getInfo s j).weight := by
+    intro j; rw [hg]
+    by_cases e : ve.info = j
+    · rw [if_pos e, e]
+    · rw [if_neg e]
+  have hm1 : s1.map = s.map := by rw [← hs1]; rfl
+  have hp1 : s1.prob = s.prob := by rw [← hs1]; rfl
+  have hc1 : s1.cws = s.cws := by rw [← hs1]; rfl
+  have hk1 : s1.sk = s.sk := by rw [← hs1]; rfl
+  have hsafe1 : Safe s1 := by rw [← hs1]; exact hs.withInfo _ _ rfl rfl rfl
+  have hna1 : ¬ (getInfo s1 ve.info).admitted = true := by
+    rw [hg, if_pos rfl]
+    show ¬ (getInfo s ve.info).admitted = true
+    rw [hna]; exact Bool.false_ne_true
+  rw [if_neg hna1]
+  have hcurE : isCurrentEntry s1 k ve = true := by
+    unfold isCurrentEntry
+    rw [hm1, hcand]
+    exact beq_self_eq_true _
+  rw [hd7, hcurE]
+  simp only [Bool.not_false, Bool.not_true, Bool.and_false, Bool.false_eq_true, if_false]
+  have hroom1 : ¬ hasEnoughCapacity p (p.weigh k v) s1 = true := by
+    unfold hasEnoughCapacity
+    rw [hcap, hc1]
+    simp only [decide_eq_true_eq]
+    omega
+  rw [if_neg hroom1]
+  have hbig : ¬ tooBig p (p.weigh k v) = true := by
+    unfold tooBig
+    rw [hcap]
+    simp only [decide_eq_true_eq]
+    omega
+  rw [if_neg hbig]
+  have hcur1 : AllCur s1 s1.prob := by
+    rw [hp1]; intro n hn; rw [hm1]; exact hcur n hn
+  have hW : probWeights s1 = probWeights s := by
+    unfold probWeights; rw [hp1]
+    exact List.map_congr_left (fun n _ => hgw n.info)
+  have hF : probFreqs s1 = probFreqs s := by
+    unfold probFreqs; rw [hp1, hk1]
+  obtain ⟨adm, rej⟩ := admitOrReject_cand (p := p) hd7 (s := s1) (k := k) (hash := p.hash k)
+    (ve := ve) (w := p.weigh k v) hsafe1 (by rw [hm1]; exact hkn) (by rw [hm1]; exact hcand) hcur1
+  rw [hW, hF, hk1, hm1, hp1, hc1] at adm
+  rw [hW, hF, hk1, hm1, hp1, hc1] at rej
+  refine ⟨adm, ?_⟩
+  intro hno
+  obtain ⟨r1, r2, r3, r4⟩ := rej hno
+  exact ⟨r1, r2, r3, Sub.trans (by rw [← hs1]; exact sub_withInfo _ _ _) r4⟩
+
+/-! ### a maintenance run with one queued write -/
+
+/-- Agreement on everything but the sketch, the counters that a run publishes and the queues. -/
+structure SameCore (s s' : SState) : Prop where
+  map : s'.map = s.map
+  infos : s'.infos = s.infos
+  prob : s'.prob = s.prob
+  wo : s'.wo = s.wo
+  va : s'.va = s.va
+  now : s'.now = s.now
+  cws : s'.cws = s.cws
+  cec : s'.cec = s.cec
+
+theorem NoExp.same {p : Params} {s s' : SState} (h : NoExp p s) (hq : SameCore s s') :
+    NoExp p s' := by
+  refine ⟨?_, ?_⟩
+  · intro n hn
+    rw [hq.prob] at hn
+    rw [hq.va, getInfo_congr hq.infos, hq.now]
+    exact h.ao n hn
+  · intro n hn
+    rw [hq.wo] at hn
+    rw [hq.va, getInfo_congr hq.infos, hq.now]
+    exact h.wo n hn
+
+theorem enableSketch_same (p : Params) (s : SState) : SameCore s (enableSketch p s) := by
+  unfold enableSketch
+  split
+  · exact ⟨rfl, rfl, rfl, rfl, rfl, rfl, rfl, rfl⟩
+  · exact ⟨rfl, rfl, rfl, rfl, rfl, rfl, rfl, rfl⟩
+
+theorem applyWrites_single (p : Params) (s : SState) (op : WOp) (hw : s.writeQ = [op]) :
+    applyWrites p s.writeQ.length s = applyWrite p { s with writeQ := [] } op := by
+  have : s.writeQ.length = 0 + 1 := by rw [hw]; rfl
+  rw [this, applyWrites]
+  simp only [hw]
+  rfl
+
+theorem syncPass_one (p : Params) (t : SState) (op : WOp) (hr : t.readQ = [])
+    (hw : t.writeQ = [op]) :
+    syncPass p t =
+      if shouldEnableSketch p (applyWrite p { t with writeQ := [] } op)
+      then enableSketch p (applyWrite p { t with writeQ := [] } op)
+      else applyWrite p { t with writeQ := [] } op := by
+  unfold syncPass
+  dsimp only
+  have e1 : (if t.readQ.length > 0 then applyReads p t.readQ.length t else t) = t := by
+    rw [if_neg]; rw [hr]; exact Nat.lt_irrefl 0
+  rw [e1]
+  have e2 : (if t.writeQ.length > 0 then applyWrites p t.writeQ.length t else t) =
+      applyWrite p { t with writeQ := [] } op := by
+    rw [if_pos (by rw [hw]; exact Nat.zero_lt_one)]
+    exact applyWrites_single p t op hw
+  rw [e2]
+
+/-- `Inner::sync` with an empty read queue and one queued write, when the write leaves
+nothing expired and nothing to evict: the run is that write. -/
+theorem syncRun_one {p : Params} {cap : Nat} (hcap : p.cap = some cap) {s : SState} (op : WOp)
+    (hr : s.readQ = []) (hw : s.writeQ = [op])
+    (hne : NoExp p (applyWrite p { s with cec := s.ec, cws := s.ws, writeQ := [] } op))
+    (hcws : (applyWrite p { s with cec := s.ec, cws := s.ws, writeQ := [] } op).cws ≤ cap) :
+    (syncRun p s).map = (applyWrite p { s with cec := s.ec, cws := s.ws, writeQ := [] } op).map ∧
+    (syncRun p s).prob =
+      (applyWrite p { s with cec := s.ec, cws := s.ws, writeQ := [] } op).prob := by
+  rw [syncRun_eq]
+  dsimp only
+  have hpass : ∃ s2, syncPass p { s with cec := s.ec, cws := s.ws } = s2 ∧
+      SameCore (applyWrite p { s with cec := s.ec, cws := s.ws, writeQ := [] } op) s2 := by
+    rw [syncPass_one p { s with cec := s.ec, cws := s.ws } op hr hw]
+    split
+    · exact ⟨_, rfl, enableSketch_same _ _⟩
+    · exact ⟨_, rfl, ⟨rfl, rfl, rfl, rfl, rfl, rfl, rfl, rfl⟩⟩
+  obtain ⟨s2, e2, hsame⟩ := hpass
+  rw [e2]
+  generalize applyWrite p { s with cec := s.ec, cws := s.ws, writeQ := [] } op = s1 at hne hcws hsame ⊢
+  have e3 : (if (p.hasExpiry || s2.va.isSome) = true then evictExpired p s2 else s2) = s2 := by
+    split
+    · exact evictExpired_noop (hne.same hsame)
+    · rfl
+  rw [e3]
+  have e4 : weightsToEvict p s2 = 0 := by
+    unfold weightsToEvict
+    rw [hcap, hsame.cws]
+    dsimp only
+    omega
+  rw [e4]
+  simp only [Nat.lt_irrefl, if_false, gt_iff_lt]
+  exact ⟨hsame.map, hsame.prob⟩
+
+/-! ### a quiescent calm cache, an insert of a new key, a maintenance run -/
+
+/-- A quiescent calm cache: nothing queued, within capacity, every node of the access-order
+list owned by the map's entry for its key, no resident past an expiry deadline. -/
+structure CalmS (p : Params) (cap : Nat) (s : SState) : Prop where
+  readQ : s.readQ = []
+  writeQ : s.writeQ = []
+  ws : s.ws ≤ cap
+  cur : AllCur s s.prob
+  live : ∀ k ve, AL.get? s.map k = some ve →
+    isExpiredInfo p s (getInfo s ve.info) s.now = false
+
+theorem CalmS.noExp {p : Params} {cap : Nat} {s : SState} (hc : CalmS p cap s)
+    (hn : NodesCore s) : NoExp p s := by
+  refine ⟨?_, ?_⟩
+  · intro n hnp
+    obtain ⟨e, he, hei⟩ := hc.cur n hnp
+    have := hc.live _ _ he
+    unfold isExpiredInfo at this
+    rw [Bool.or_eq_false_iff] at this
+    rw [← hei]; exact this.2
+  · intro n hnw
+    have h1 := hn.woOwn n hnw
+    have h2 := hn.woAdm n.info (by rw [h1]; rfl)
+    obtain ⟨id, h3⟩ := hn.adm_ao h2
+    obtain ⟨m, hm, _, hmi⟩ := hn.aoNode _ _ h3
+    obtain ⟨e, he, hei⟩ := hc.cur m hm
+    have := hc.live _ _ he
+    unfold isExpiredInfo at this
+    rw [Bool.or_eq_false_iff] at this
+    rw [← hmi, ← hei]; exact this.1
+
+/-- The value entry `insert` creates for a new key. -/
+def candVE (s : SState) (v : Nat) : VE :=
+  { id := s.nextId + 1, val := v, info := s.nextId, slot := s.nextId + 1 }
+
+/-- The map step of the insert of a new key: a fresh info, a fresh value entry. -/
+def withCand (p : Params) (s : SState) (k v : Nat) : SState :=
+  { s with nextId := s.nextId + 2,
+           infos := AL.put s.infos s.nextId
+             { key := k, admitted := false, dirty := true, la := s.now, lm := s.now,
+               weight := p.weigh k v },
+           map := AL.put s.map k (candVE s v) }
+
+/-- The write operation `insert` queues for a new key. -/
+def candOp (p : Params) (s : SState) (k v : Nat) : WOp :=
+  .upsert k (p.hash k) (candVE s v) 0 (p.weigh k v)
+
+theorem insert_fresh (p : Params) {s : SState} (hq : QInv s) {k : Nat} (v : Nat)
+    (hnew : AL.get? s.map k = none) :
+    insert p s k v =
+      { housekeepW p (withCand p s k v) with
+        writeQ := (housekeepW p (withCand p s k v)).writeQ ++ [candOp p s k v] } := by
+  unfold insert
+  dsimp only
+  rw [hnew]
+  dsimp only
+  exact scheduleWriteOp3 p (s := withCand p s k v) (qinv_of_eq hq rfl rfl rfl) _
+
+/-- The info `insert` creates for a new key. -/
+def candInfo (p : Params) (s : SState) (k v : Nat) : Info :=
+  { key := k, admitted := false, dirty := true, la := s.now, lm := s.now, weight := p.weigh k v }
+
+theorem getInfo_withCand (p : Params) (s : SState) (k v j : Nat) :
+    getInfo (withCand p s k v) j = if s.nextId = j then candInfo p s k v else getInfo s j := by
+  simp only [getInfo, withCand, candInfo, AL.get?_put]
+  by_cases e : s.nextId = j <;> simp [e]
+
+theorem node_info_lt {s : SState} (hn : NodesCore s) {n : AoNode} (h : n ∈ s.prob) :
+    n.info < s.nextId := by
+  have := hn.probAdm h
+  apply Nat.lt_of_not_le
+  intro hle
+  rw [hn.infoFresh _ hle] at this
+  cases this
+
+theorem wo_info_lt {s : SState} (hn : NodesCore s) {n : WoNode} (h : n ∈ s.wo) :
+    n.info < s.nextId := by
+  have := hn.woAdm n.info (by rw [hn.woOwn n h]; rfl)
+  apply Nat.lt_of_not_le
+  intro hle
+  rw [hn.infoFresh _ hle] at this
+  cases this
+
+/-- A time stamp taken now is not expired if some time stamp of the past is not. -/
+theorem expiredTs_fresh {d va : Option Nat} {now ts : Nat} (hva : ∀ v, va = some v → v ≤ now)
+    (hts : ts ≤ now) (h : expiredTs d va ts now = false) : expiredTs d va now now = false := by
+  unfold expiredTs at h ⊢
+  rw [Bool.or_eq_false_iff] at h ⊢
+  refine ⟨?_, ?_⟩
+  · cases hv : va with
+    | none => rfl
+    | some v =>
+      have := hva v hv
+      simp only [decide_eq_false_iff_not, Nat.not_lt]
+      exact this
+  · cases hd : d with
+    | none => rfl
+    | some d' =>
+      have h2 := h.2
+      rw [hd] at h2
+      simp only [decide_eq_false_iff_not, Nat.not_le] at h2 ⊢
+      omega
 
 end Admit
 end Sync
